@@ -217,7 +217,14 @@ impl<'tcx> Cx<'tcx> {
             return J::Null;
         }
         let ty = tcx.type_of(did).instantiate_identity().skip_norm_wip();
-        let is_str = matches!(ty.kind(), ty::Ref(_, inner, _) if inner.is_str());
+        let is_bytes = match ty.kind() {
+            ty::Ref(_, inner, _) => match inner.kind() {
+                ty::Slice(t) => matches!(t.kind(), ty::Uint(ty::UintTy::U8)),
+                _ => false,
+            },
+            _ => false,
+        };
+        let is_str = is_bytes || matches!(ty.kind(), ty::Ref(_, inner, _) if inner.is_str());
         let scalar_ok = matches!(ty.kind(), ty::Bool | ty::Char | ty::Int(_) | ty::Uint(_));
         if !is_str && !scalar_ok {
             // aggregate constants (`Size(0x10000)`, `Bounded(UnitBound)`, ...): destructure recursively
@@ -239,6 +246,9 @@ impl<'tcx> Cx<'tcx> {
                         return J::Null;
                     }
                     let bytes = inner.inspect_with_uninit_and_ptr_outside_interpreter(0..n);
+                    if is_bytes {
+                        return J::O(vec![("t", J::s("bytes")), ("v", J::A(bytes.iter().map(|x| J::U(*x as u128)).collect()))]);
+                    }
                     J::O(vec![
                         ("t", J::s("str")),
                         ("v", J::S(String::from_utf8_lossy(bytes).into_owned())),
@@ -271,6 +281,9 @@ impl<'tcx> Cx<'tcx> {
                     }
                     let bytes =
                         tin.inspect_with_uninit_and_ptr_outside_interpreter(ptr_off..ptr_off + len);
+                    if is_bytes {
+                        return J::O(vec![("t", J::s("bytes")), ("v", J::A(bytes.iter().map(|x| J::U(*x as u128)).collect()))]);
+                    }
                     J::O(vec![
                         ("t", J::s("str")),
                         ("v", J::S(String::from_utf8_lossy(bytes).into_owned())),
